@@ -72,6 +72,9 @@ def execute(st, ctx):
     for t in range(ntenants):
         spec, _ = gen_tool(st, cfg, prefix="abc"[t] if ntenants > 1 else "")
         steps = bounded_steps(ch, spec) if TOOLS[spec.tool].infinite else None
+        if steps is None and ch.chance(1, 5):
+            # the consumer stops early (and closes the iterator): every prefix of the stdlib's sequence is a result too
+            steps = ch.draw(ref_tool(spec, None).n_steps_done + 1)
         if ch.chance(1, 5):
             # the consumer asks one or two more times after it has been told the end
             spec.p["again"] = ch.between(1, 2)
